@@ -18,7 +18,9 @@ H(r) == [i \in 1..Len(r.steps) |-> [in |-> r.steps[i].in, ev |-> r.steps[i].ev]]
 
 MonitorNames == {
     "C16_AtMostOneSource", "C16_RejectedUnlessOverride", "C16_ClosedBeforeAttach", "C16_SourceIsHolder", "C16_NoStaleData",
+    "C16_CutOffWhenRemovalReturns",
     "C18_ReaderLimit", "C18_ReaderLimitAPI", "C18_NoDoubleCount", "C18_TeardownOnUnavailable", "C18_NoReadersWithoutStream",
+    "C18_ReadersOnCurrentStream",
     "C19_AtMostOneResponse", "C19_NoSpuriousResponse", "C19_AnsweredWhenWaitEnds", "C19_AnsweredWhenReady",
     "C19_StreamOnlyWhileAvailable", "C19_DemandAlternates", "C19_StartedOnDemand", "C19_NoDeadWait", "C19_NoHang",
     "C19_StopScheduledWhenIdle",
@@ -46,6 +48,16 @@ IdleStopScheduled(r, startEv, stopEv) ==
         (o.alive /\ RunningAfter(r, i, startEv, stopEv) /\ o.readers = <<>> /\ o.held = 0 /\ KickedOutstanding(r, i) = {})
             => (o.closeArmed \/ o.readyArmed)
 
+\* stream number in the last successful answer given to `who` up to step i (0 = none)
+LastS(r, i, who) ==
+    LET es == SelectSeq(AllEv(SubSeq(H(r), 1, i)), LAMBDA e : e.t = "resp" /\ e.c = who /\ e.v \in {"stream", "ok"})
+    IN IF es = <<>> THEN 0 ELSE es[Len(es)].s
+\* stream number of the stream the current source feeds: the last successful attach of a publisher or static source
+SourceS(r, i) ==
+    LET es == SelectSeq(AllEv(SubSeq(H(r), 1, i)),
+                        LAMBDA e : e.t = "resp" /\ ((e.c \in Pubs /\ e.v = "stream") \/ (e.c = "static" /\ e.v = "ok")))
+    IN IF es = <<>> THEN 0 ELSE es[Len(es)].s
+
 Mon(name, r) ==
     LET h == H(r) IN
     CASE name = "C16_AtMostOneSource"        -> C16_AtMostOneSource(h)
@@ -56,6 +68,13 @@ Mon(name, r) ==
       [] name = "C16_SourceIsHolder" ->
             \A i \in 1..Len(h) : (r.steps[i].obs.alive /\ r.steps[i].obs.source \in Pubs)
                                     => r.steps[i].obs.source \in HoldersUpTo(h, i)
+      \* once RemovePublisher has returned to the publisher (event "returned"), a unit it writes reaches no reader
+      \* that was attached to the path (readers the path had closed before are still draining and do not count)
+      [] name = "C16_CutOffWhenRemovalReturns" ->
+            \A i \in 1..Len(h) : h[i].in.a = "RemovePublisher" =>
+                \A k, m \in 1..Len(h[i].ev) :
+                    ~(k < m /\ h[i].ev[k].t = "returned" /\ h[i].ev[m].t = "data" /\ h[i].ev[m].v = h[i].in.c
+                      /\ h[i].ev[m].c \in AttachedUpTo(h, i - 1))
       [] name = "C18_ReaderLimit"            -> C18_ReaderLimit(h, MaxReaders)
       [] name = "C18_ReaderLimitAPI" ->
             MaxReaders # 0 => \A i \in 1..Len(h) : Len(r.steps[i].obs.readers) <= MaxReaders
@@ -63,6 +82,11 @@ Mon(name, r) ==
       [] name = "C18_TeardownOnUnavailable"  -> C18_TeardownOnUnavailable(h)
       [] name = "C18_NoReadersWithoutStream" ->
             \A i \in 1..Len(h) : (r.steps[i].obs.alive /\ ~r.steps[i].obs.ready) => r.steps[i].obs.readers = <<>>
+      \* "when the stream goes away every reader is detached and closed": whoever the path still lists as a reader
+      \* was attached to the stream the current source feeds, not to one that has been replaced
+      [] name = "C18_ReadersOnCurrentStream" ->
+            \A i \in 1..Len(h) : (r.steps[i].obs.alive /\ r.steps[i].obs.ready /\ SourceS(r, i) # 0) =>
+                \A x \in 1..Len(r.steps[i].obs.readers) : LastS(r, i, r.steps[i].obs.readers[x]) = SourceS(r, i)
       [] name = "C19_AtMostOneResponse"      -> C19_AtMostOneResponse(h)
       [] name = "C19_NoSpuriousResponse"     -> C19_NoSpuriousResponse(h)
       [] name = "C19_AnsweredWhenWaitEnds"   -> C19_AnsweredWhenWaitEnds(h)
@@ -107,8 +131,11 @@ RunVerdict(r, ln) ==
 \* conformance compares the path goroutine's own events in order, and responses / reader
 \* closes as sets.
 IsReaderClose(e) == e.t = "close" /\ e.c \in Readers
-NoRC(ev) == SelectSeq(ev, LAMBDA e : ~IsReaderClose(e) /\ e.t \notin {"resp", "data"})
-Resps(ev) == {ev[k] : k \in {j \in 1..Len(ev) : ev[j].t \in {"resp", "data"}}}
+NoRC(ev) == SelectSeq(ev, LAMBDA e : ~IsReaderClose(e) /\ e.t \notin {"resp", "data", "returned"})
+\* (deliveries of the probe write that follows a "returned" marker are judged by C16_CutOffWhenRemovalReturns,
+\*  layer 1 has no such write: they are left out of the comparison)
+Resps(ev) == LET probe == \E j \in 1..Len(ev) : ev[j].t = "returned"
+             IN {ev[k] : k \in {j \in 1..Len(ev) : ev[j].t = "resp" \/ (ev[j].t = "data" /\ ~probe)}}
 RC(ev) == {ev[k].c : k \in {j \in 1..Len(ev) : IsReaderClose(ev[j])}}
 
 RECURSIVE ConformsFrom(_, _, _, _, _)
